@@ -79,6 +79,9 @@ def generate(rng, tier, idx):
     for _ in range(rng.randrange(2, 6)):
         ops.append({'start': rng.choice(levels), 'allow_compressed': rng.random() < 0.5,
                     'allow_xdev': rng.random() < 0.5})
+        if rng.random() < 0.3:
+            # the start path spelled relative to a working directory somewhere on the chain ('.', '..', 'a/b', '../c')
+            ops[-1]['cwd'] = rng.choice(levels)
     return {'prop': ID, 'order_key': '%016x' % rng.getrandbits(64), 'tree': tree,
             'manifests': manifests, 'mounts': mounts, 'ops': ops}
 
@@ -109,10 +112,24 @@ def execute(sc):
             if not os.path.isdir(os.path.join(base, start)):
                 continue
             want = m_find(base, mounts, start, op['allow_compressed'], op['allow_xdev'])
-            with seam:
-                seam.begin_op(i, step_cap=400)
-                r = call(find_top_level_manifest, os.path.join(base, start) if start else base,
-                         allow_xdev=op['allow_xdev'], allow_compressed=op['allow_compressed'])
+            arg = os.path.join(base, start) if start else base
+            old_cwd = None
+            if op.get('cwd') is not None and os.path.isdir(os.path.join(base, op['cwd'])):
+                old_cwd = os.getcwd()
+                cwd_abs = os.path.join(base, op['cwd']) if op['cwd'] else base
+                os.chdir(cwd_abs)
+                arg = os.path.relpath(arg, cwd_abs)
+                counters['relative_start_paths'] = counters.get('relative_start_paths', 0) + 1
+            try:
+                with seam:
+                    seam.begin_op(i, step_cap=400)
+                    r = call(find_top_level_manifest, arg,
+                             allow_xdev=op['allow_xdev'], allow_compressed=op['allow_compressed'])
+            finally:
+                if old_cwd is not None:
+                    os.chdir(old_cwd)
+            if r[0] == 'ok' and r[1] is not None and old_cwd is not None and not os.path.isabs(r[1]):
+                r = ('ok', os.path.join(cwd_abs, r[1]))
             results.append(r)
             if r[0] == 'INTERNAL':
                 continue
